@@ -193,6 +193,21 @@ def main(argv):
                 judge("no-block-labels", sol, rc, out, [os.path.join(dn, "p" + sext)], False, "the problem has no block labels", None, kind)
             else:
                 judge("no-block-labels(mesher)", "fmesher", rcn, outn, [], False, "the problem has no block labels", None, kind)
+            # a problem file that exists but holds nothing the mesher can triangulate: empty (zero bytes), and a drawing of two points
+            # without any line (Triangle refuses fewer than three vertices): the mesher has to report failure and leave no mesh files
+            for nm_, mk_ in (("problem-file-empty", None), ("drawing-of-two-points", "two")):
+                dz = os.path.join(work, "%s_%s" % (kind, nm_))
+                os.makedirs(dz); os.chmod(dz, 0o777)
+                if mk_ is None:
+                    open(os.path.join(dz, "p" + ext), "w").close()
+                else:
+                    p2 = small_problem(kind)
+                    p2.nodes, p2.segs, p2.arcs, p2.labels, p2.holes = p2.nodes[:2], [], [], [], []
+                    p2.write(os.path.join(dz, "p" + ext))
+                rcz, outz = run([tool("fmesher"), os.path.join(dz, "p" + ext)], dz)
+                stats["faults"]["precondition"] += 1
+                judge(nm_ + "(mesher)", "fmesher", rcz, outz, [os.path.join(dz, "p" + e_) for e_ in (".node", ".ele", ".edge")], False,
+                      "the problem file holds nothing that can be meshed", None, kind)
             # unwritable output
             d = fresh_dir("unwritable")
             os.chmod(os.path.join(d, "p" + sext), 0o444)
